@@ -52,6 +52,10 @@ var POnlyDeref = Cello(POnlyDeref, Instance(Pointer, NULL, POnlyDeref_Deref));
 /* a type that declares a Current instance whose only member is EMPTY: asking for its current object is a ClassError, not a call */
 struct WrEmpty { int64_t x; };
 var WrEmpty = Cello(WrEmpty, Instance(Current, NULL), Instance(Len, NULL), Instance(Hash, NULL));
+/* statically declared types nobody has touched yet (their header has no type until the first type_of): the first question
+   asked about each of them is an OBJECT-level one - a type object is an object of type Type whatever was asked before */
+var Cold0 = CelloEmpty(Cold0); var Cold1 = CelloEmpty(Cold1); var Cold2 = CelloEmpty(Cold2); var Cold3 = CelloEmpty(Cold3);
+var Cold4 = CelloEmpty(Cold4); var Cold5 = CelloEmpty(Cold5); var Cold6 = CelloEmpty(Cold6); var Cold7 = CelloEmpty(Cold7);
 static var* BT[NB]; static const char* BTN[NB];
 static var* CL[NC]; static const char* CLN[NC]; static int CLM[NC];     /* member counts */
 #define MAXRT 64
@@ -252,6 +256,22 @@ int main(int argc, char** argv) {
         var arr = new_raw(Array, Ref, a, b);             /* ... also when stored as elements */
         if (deref(get(arr, $I(0))) != a || deref(get(arr, $I(1))) != tgt) bad |= 16;
         del_raw(arr));
+      ev_begin("wrappers"); ev_int("bad", bad); ev_str("exc", hc_exc); ev_end();
+      continue;
+    }
+    if (hc_is(0, "coldimpl")) {           /* coldimpl <k> : object-level questions about a static type object, the first of them while it is cold */
+      int k = (int)hc_int(1) & 7; long bad = 0;
+      var colds[8] = { Cold0, Cold1, Cold2, Cold3, Cold4, Cold5, Cold6, Cold7 };
+      var T = colds[k];
+      for (int q = 0; q < 6 && !hc_exc[0]; q++) {
+        volatile long long r = -1; int w = (q + k) % 6;
+        if      (w == 0) { HC_TRY(r = implements_method(T, Show, show)); if (r != 1) bad |= 1; }
+        else if (w == 1) { HC_TRY(r = implements_method(T, Iter, iter_init)); if (r != 0) bad |= 2; }
+        else if (w == 2) { HC_TRY(r = implements_method(T, C_Str, c_str)); if (r != 1) bad |= 4; }
+        else if (w == 3) { HC_TRY(r = implements(T, Hash)); if (r != 1) bad |= 8; }
+        else if (w == 4) { HC_TRY(r = implements(T, Len)); if (r != 0) bad |= 16; }
+        else             { HC_TRY(r = (type_of(T) == Type)); if (r != 1) bad |= 32; }
+      }
       ev_begin("wrappers"); ev_int("bad", bad); ev_str("exc", hc_exc); ev_end();
       continue;
     }
